@@ -136,6 +136,11 @@ func c10PublicAPI(r *Runner) {
 		{name: "noflagsfail", files: map[string]string{"a.go": fmt.Sprintf(aSrc, "noflagsfail"), "b.go": fmt.Sprintf(notFmt, "noflagsfail")}, failOK: true},
 		{name: "autoname", files: map[string]string{"a.go": fmt.Sprintf(aSrc, "autoname"), "b.go": fmt.Sprintf(notFmt, "autoname"), "c_test.go": "package autoname\n\nimport \"testing\"\n\nfunc   TestX(t *testing.T){ }\n"}, flags: []string{"-autoname"},
 			expect: map[string]string{"a.go": "RENAMED"}},
+		// a generated-looking file (goyacc style) whose //line directive before the package clause names another
+		// existing file: the file that holds the renamed call is rewritten, the named file is not touched
+		{name: "linedirective", files: map[string]string{"types.go": "package linedirective\n\n" + c10Types + "func f(a, b *A) bool { return deriveEqual(a, b) }\n",
+			"y.go": "//line expr.y:2\npackage linedirective\n\nfunc g(a, b *B) bool { return deriveEqual(a, b) }\n", "expr.y": "%{\npackage linedirective\n%}\n%%\ntop: ;\n"}, flags: []string{"-autoname"},
+			expect: map[string]string{"y.go": "RENAMED"}},
 	}
 	var rows []map[string]interface{}
 	for _, s := range scs {
